@@ -628,11 +628,19 @@ def run(ctx):
             continue
         n_lazy += 1
         lazy.check_getitem_stores(ctx, "R2.lazy-parse-stored", ci.rel, cls, f)
+        lazy.check_missing_key_error(ctx, "R2.missing-key-is-keyerror", ci.rel, cls, f)
         owner, eq = idx.resolve(cls, "__eq__")
         if eq is not None and owner.name == cls:
             lazy.check_eq_through_getitem(ctx, "R2.eq-through-getitem", ci.rel, cls, eq)
             lazy.check_eq_key_sets(ctx, "R2.eq-key-sets", ci.rel, cls, eq)
     ctx.floor("lazy-containers", n_lazy, 3)
+    # a refused change leaves the container as it was: the refusal (a `raise` of the method itself included) comes before the first
+    # in-place change of the backing store
+    from ..lints import raising_functions, validation_before_mutation
+    _raising = raising_functions(ctx, [CIF, BCIF, COMP])
+    for rel_ in (CIF, BCIF, COMP):
+        validation_before_mutation(ctx, rel_, "R2.refusal-leaves-container-intact", _raising,
+                                   method_names=("__setitem__", "__delitem__", "pop", "popitem", "update", "clear"))
 
     # lstrip used to undo a prefix
     n_strip = 0
